@@ -18,6 +18,8 @@ ALL_TAGS = ["Artist", "ArtistSort", "Album", "AlbumSort", "AlbumArtist", "AlbumA
             "MUSICBRAINZ_ALBUMARTISTID", "MUSICBRAINZ_TRACKID", "MUSICBRAINZ_RELEASETRACKID", "MUSICBRAINZ_WORKID"]
 TAGKEYS += ALL_TAGS
 TAGKEYS += ["_comment", "-x", "x_", "a--b", "__"]     # the protocol's name alphabet is letters, `_` and `-` in any position
+# names longer than any fixed-size scratch buffer a decoder might use (the protocol puts no limit on the length of a name)
+TAGKEYS += ["X_VENDOR_SPECIFIC_EXTENSION_TAG_ID", "a" * 31, "a" * 32, "a" * 33, "Q" * 64, "Q" * 65, "x-" * 64, "MUSICBRAINZ_" * 22, "z" * 1000]
 # known names in other letter cases (the library documents case-insensitive parsing: values must land under the same tag)
 TAGKEYS_ODD = ["artist", "ARTIST", "title", "X_Y", "a-b", "x_y", "X-CUSTOM", "x-Custom", "mood", "Mood", "MOOD"] + [t.lower() for t in ALL_TAGS] + [t.upper() for t in ALL_TAGS] + [t.swapcase() for t in ALL_TAGS[::3]]
 TEXT = ["", "x", "Foo Bar", "été", "a=b=c", "OK", "ACK [5@0] {} x", "binary: 3", "list_OK", "a: b", "100%", "  lead", "trail  ", "x" * 300,
@@ -139,6 +141,9 @@ def status(rng, good):
         f.append(kv("elapsed", pick(GOODDURS, DURS)))
     if opt(0.4):
         f.append(kv("duration", pick(GOODDURS, DURS)))
+    if opt(0.5):
+        # the deprecated combined line every playing server sends next to (or, for a stream of unknown length, without) elapsed / duration
+        f.append(kv("time", rng.choice(["0", "12", "30", "3599"]) + ":" + rng.choice(["0", "0", "240", "3600"])))
     if opt(0.4):
         f.append(kv("bitrate", pick(GOODNUMS, NUMS)))
     if opt(0.4):
@@ -156,7 +161,7 @@ def status(rng, good):
         if y < 0.1:
             f = [x for x in f if bytes(x[0]) != rng.choice([b"state", b"repeat", b"random", b"consume"])]
         elif y < 0.15:
-            f.append(kv("time", "30:240"))
+            f.append(kv("time", rng.choice(["30:240", "30", ":", "x:y", "1:nan", ""])))
         elif y < 0.2:
             f.append(kv("Time", rng.choice(["30:240", "30", ":", "1:nan"])))
         elif y < 0.25 and f:
